@@ -54,14 +54,39 @@ func auditRun(c *eCase, format string) (lines []string, cb []string, errs string
 		return nil, nil, "CONFIGERR"
 	}
 	runEngCase(waf, c, &[]string{})
+	first, _ := os.ReadFile(file)
+	// the same transaction once more on the same WAF: whatever the first one changed at run time
+	// (audit engine, parts) must not show in the second one's record
+	cb = cb[:0]
+	runEngCase(waf, c, &[]string{})
 	closeWAF(waf)
 	b, _ := os.ReadFile(file)
+	if auditShape(string(b[len(first):]), format) != auditShape(string(first), format) {
+		return nil, nil, "SECOND-RUN-DIFFERS"
+	}
+	b = first
 	sc := bufio.NewScanner(strings.NewReader(string(b)))
 	sc.Buffer(make([]byte, 1<<20), 1<<24)
 	for sc.Scan() {
 		lines = append(lines, sc.Text())
 	}
 	return lines, cb, ""
+}
+
+// auditShape: what of a log excerpt does not depend on the transaction id / time: the section letters
+// (Native) or the number of records and of messages per record (JSON)
+func auditShape(txt, format string) string {
+	var sb strings.Builder
+	for _, l := range strings.Split(txt, "\n") {
+		if format == "Native" {
+			if m := boundaryRe.FindStringSubmatch(l); m != nil {
+				sb.WriteString(m[1])
+			}
+		} else if l != "" {
+			sb.WriteString(fmt.Sprintf("R%d;", strings.Count(l, "\"actionset\"")))
+		}
+	}
+	return sb.String()
 }
 
 var boundaryRe = regexp.MustCompile(`^--[A-Za-z]{10}-([A-Z])--$`)
